@@ -212,6 +212,19 @@ CHECKS = {
         technique='symbolic execution of MIR + SMT (z3, nonlinear real arithmetic rounding-error model), replay through from_css',
         design='§4 C10',
     ),
+    'C20': dict(
+        engine='M', category='other',
+        text='Bounded check of iteration-order independence: every call in the template compiler crate that observes the iteration order of a '
+             'HashMap/HashSet is located in the MIR; each must be one of the wrappers group::sorted_by_key / BindingMapCollector::list_fields '
+             '(or the listed non-emission listing API). The wrappers are executed from MIR with HashMap::iter = an environment-chosen permutation of '
+             '2 and 3 symbolic distinct entries; z3 shows that for every pair of permutations the returned sequence is identical. Whole-artefact byte '
+             'identity across processes is replayed (12 fresh processes, two insertion orders), not proved; the stylesheet half iterates no hash container.',
+        note='Trusted: MIR text; std contracts (HashMap::iter yields each entry once in unspecified order; sort/sort_by as a 3-element sorting network over '
+             'symbolic comparisons; String Ord = z3 str.<); dependencies (sourcemap crate) outside. An unanalysed order-observing site whose replay '
+             'shows identical bytes is reported inconclusive (exit 2), not as a violation.',
+        technique='symbolic execution of MIR with the hash iteration order as symbolic environment + SMT (z3), MIR call-site scan, multi-process replay',
+        design='§4 C20',
+    ),
 }
 
 NOT_APPLICABLE = {
